@@ -199,7 +199,7 @@ variable (κ : Option Pos × String × Nat → Option Pos × String × Nat)
 theorem mapAttrs_addName (st : St) (f : Nat) (b : Binding) :
     (st.mapAttrs κ).addName f b = (st.addName f b).mapAttrs κ := by
   simp only [St.addName]
-  rw [apply_ite (St.mapAttrs κ)]
+  rw [apply_ite (St.mapAttrs κ), apply_ite (St.mapAttrs κ)]
   rfl
 
 theorem mapAttrs_foldl_addName (f : Nat) (args : List Binding) : ∀ (st : St),
@@ -284,6 +284,7 @@ theorem execInstr_ren (lines : List Text.Str) {rec rec' : Rec} (i : Instr)
   | compName f b => rfl
   | attrAssign q => rfl
   | globalDecl ns => rfl
+  | nonlocalDecl ns => rfl
   | addReturn => rfl
   | addImport x => rfl
   | addStar a b c => rfl
